@@ -137,3 +137,220 @@ def c15(ck):
     ck.assumptions += ["a name is 'readable' when the ThreadName fail point is not toggled for that thread and /proc comm is valid UTF-8",
                        "names compared as bytes of the UTF-8 text; the kernel's final newline is not part of the name"]
     return runs
+
+
+# ------------------------------------------------------------------------------------------ C01
+def _shape_scenarios(n, seed, counts=(1, 2, 5, 21, 64)):
+    import random
+    rnd = random.Random(seed)
+    scns = []
+    for k in range(n):
+        nt = counts[k % len(counts)] - 1
+        threads = []
+        for i in range(nt):
+            t = {"mode": "pause", "stack_pages": rnd.choice([1, 1, 2, 4]), "sp_off": rnd.randrange(0, 4096)}
+            if rnd.random() < 0.8:
+                t["name_hex"] = rnd.choice(_NAMES[:11]).hex()
+            if rnd.random() < 0.3:
+                t["words"] = [[8 * rnd.randrange(0, 8), {"region": "code", "off": rnd.randrange(0, 8192)}]]
+            threads.append(t)
+        nreg = rnd.randrange(0, 4)
+        regions = [{"name": f"app{j}", "len": rnd.choice([1, 7, 100, 4096, 5000, 70000]), "lead": rnd.randrange(0, 64), "above": rnd.choice(["hole", "guard", "mapped"])} for j in range(nreg)]
+        regions.append({"name": "code", "len": 8192, "exec": True})
+        tgt = {"threads": threads, "regions": regions, "pipes": rnd.randrange(0, 3), "sockets": rnd.randrange(0, 2)}
+        w = {"blamed": "main", "app_memory": [{"addr": {"region": f"app{j}"}, "len": regions[j]["len"]} for j in range(nreg)]}
+        if nt and rnd.random() < 0.6:
+            b = rnd.randrange(nt)
+            w["blamed"] = {"slot": b}
+            if rnd.random() < 0.7:
+                w["crash_context"] = {"sp": {"thread_sp": b}, "ip": rnd.choice([{"region": "code", "off": rnd.choice([0, 64, 127, 128, 4000, 8191])}, "0x10", {"region": "app0"} if nreg else "0x20"]), "gregs_seed": k + 1}
+        if rnd.random() < 0.4:
+            w["size_limit"] = rnd.choice([1000, 300000, 5000000])
+        if rnd.random() < 0.4:
+            w["sanitize"] = True
+        if rnd.random() < 0.3:
+            w["skip"] = True
+            w["principal"] = rnd.choice([{"region": "code", "off": 100}, "0x30"])
+        if rnd.random() < 0.3:
+            w["user_mappings"] = [{"start": {"region_map": "code"}, "size": 8192, "name": "/user/lib code.so", "id_hex": "00112233445566778899aabbccddeeff"}]
+        f = {"start": rnd.choice([0, 0, 3, 4096]), "pre_len": rnd.choice([0, 500000])}
+        if nt and rnd.random() < 0.5:
+            f["name_fail"] = [{"slot": i} for i in range(nt) if rnd.random() < 0.4]
+        scns.append({"id": f"shape{k}", "target": tgt, "writer": w, "faults": f})
+    return scns
+
+
+def c01(ck):
+    quick = ck.tier == "quick"
+    mc = core.mc_or_die("DumpSeq", "MC_DumpSeq_fresh", workers=8, coverage=True, timeout=1500)
+    util.vacuity(ck, mc, "DumpSeq", ["ThreadList", "Modules", "AppMem", "MemList", "Exception", "SysInfo", "BestEffortX", "Names", "Handles", "Return"])
+    ck.add_mc(mc, "the dump pipeline as an allocator of objects: every thread list (named/unnamed, with/without stack), app regions, modules, handles, link maps, soft-failing stream; invariants C01, C11, C19 for a fresh writer")
+    scns = _shape_scenarios(25 if quick else 400, ck.seed)
+    runs = dumps.run_scenarios(ck, scns, "c01")
+    evs = []
+    for r in runs:
+        if not r["dumps"]:
+            evs.append({"ev": "failed", "origin": r["id"], "outcome": r["end"]["worker"] if r["end"] else "?"})
+        evs += [dumps.c01_event(r, d) for d in r["dumps"]]
+    out = os.path.join(ck.work, "c01.ndjson")
+    core.export_lines(evs, out)
+
+    def describe(hist, tag):
+        e = hist[-1]
+        ov = [(a, b) for a, b in zip(e["objs"], e["objs"][1:]) if a["off"] + a["len"] > b["off"]][:2]
+        bad_alias = [o for o in e["objs"] if o["nk"] > 1 and o["alias"] not in ("mem+stack", "ctx+ctx:exception")][:2]
+        return ({"tag": tag}, f"dump {e['origin']}#{e.get('dump_no', 1)} is not structurally sound ({tag}): decoder errors {e['errs']}, overlapping {ov}, unexpected aliases {bad_alias}, dir {e['dir'][:4]}...")
+    v = util.judge_batch(ck, "Trace_Structure", out, "header, directory and every RVA-reachable object of real dumps of random process shapes (1..64 threads) x writer options", "DumpSeq", describe, traces=len(evs))
+    okd = sum(1 for e in evs if e["ev"] == "c01")
+    if okd == 0:
+        raise core.ToolError("vacuous: no dump succeeded")
+    ck.cov["distinct_nontrivial"] = okd
+    ck.cov["objects_checked"] = v.get("objects", 0)
+    ck.cov["dumps_that_failed"] = len(evs) - okd
+    ck.cov["rule"] = "one case = one successful dump of a generated process shape under a generated option combination (seeded); non-trivial = decoded completely"
+    ck.cov["decided_by"] = {"directory shape, sizes, containment, sortedness and disjointness of objects, allowed aliases": "spec", "finding the objects (following every RVA)": "mdparse"}
+    ck.sample({"c01_event": {k: (v if k != "objs" else v[:6]) for k, v in next(e for e in evs if e["ev"] == "c01").items()}})
+    ck.assumptions += ["Linux/x86-64 only; the mac writer's stream sequence is not covered", "objects = what the independent decoder reaches from the directory"]
+    return runs
+
+
+# ------------------------------------------------------------------------------------------ C11
+def _softerr_scenarios(quick, seed):
+    fps = ["StopProcess", "FillMissingAuxvInfo", "ThreadName", "SuspendThreads", "CpuInfoFileOpen"]
+    scns = []
+    for mask in range(32):
+        sel = [fps[i] for i in range(5) if mask >> i & 1]
+        tgt = dumps.base_target(2 + mask % 2)
+        scns.append({"id": f"fp{mask}", "target": tgt, "writer": {"blamed": "main"}, "faults": {"failspots": sel}})
+    # mixed per-thread name failures
+    scns.append({"id": "namefail-mixed", "target": dumps.base_target(3), "writer": {"blamed": "main"}, "faults": {"name_fail": [{"slot": 0}, {"slot": 2}], "failspots": ["CpuInfoFileOpen"]}})
+    # natural failures: a thread that vanishes between enumeration and attach (process not group-stopped), sandbox threads, an unreferenced principal mapping
+    t = {"shared": True, "threads": [{"mode": "heartbeat"}, {"mode": "heartbeat"}, {"mode": "rsp0"}, {"mode": "pause", "stack_pages": 1, "sp_off": 100}]}
+    scns.append({"id": "vanish+rsp0", "target": t, "writer": {"blamed": "main"}, "faults": {"failspots": ["StopProcess"], "actions": [{"at": {"hook": "enumerate:done"}, "do": "exit", "slot": 1}]}})
+    scns.append({"id": "principal-unreferenced", "target": dumps.base_target(2), "writer": {"blamed": "main", "skip": True, "principal": "0x40"}, "expect": {"prinNotRef": True}})
+    scns.append({"id": "non-utf8-name", "target": {"threads": [{"mode": "pause", "stack_pages": 1, "sp_off": 64, "name_hex": "fffe41"}, {"mode": "pause", "stack_pages": 1, "sp_off": 64, "name_hex": "6f6b"}]}, "writer": {"blamed": "main"}})
+    scns.append({"id": "direct-auxv-complete+fill-failpoint", "target": dumps.base_target(1), "writer": {"blamed": "main", "direct_auxv": {"phnum": 1, "phdr": "0x1000", "gate": "0x2000", "entry": "0x3000"}},
+                 "faults": {"failspots": ["FillMissingAuxvInfo"]}, "expect": {"dsoFail": True}})
+    scns.append({"id": "no-dt-debug", "target": {"threads": [], "linker_chain": {"names": ["/lib/a.so"], "no_debug": True}}, "writer": {"blamed": "main", "direct_auxv": "linker_chain"}, "expect": {"dsoFail": True}})
+    return scns
+
+
+def c11(ck):
+    quick = ck.tier == "quick"
+    mc = core.mc_or_die("SoftErrors", "MC_SoftErrors", workers=8, coverage=True, timeout=900)
+    util.vacuity(ck, mc, "SoftErrors", ["Advance", "Finish", "Contribution"])
+    ck.add_mc(mc, "every fault plan (32 fail-point subsets x natural failures) through the best-effort steps in code order; invariants SoftNeverHard, SoftErrorsExact")
+    mc2 = core.mc_or_die("DumpSeq", "MC_DumpSeq_fresh", workers=8, timeout=1500)
+    ck.add_mc(mc2, "pipeline model: a soft-failing stream leaves a zero entry and every other entry intact (C11 in DumpSeq)")
+    scns = _softerr_scenarios(quick, ck.seed)
+    runs = dumps.run_scenarios(ck, scns, "c11")
+    evs, sevs = [], []
+    for r in runs:
+        if not r["dumps"]:
+            evs.append({"ev": "c11", "origin": r["id"], "fp": [], "nameFail": 0, "threads": 1, "exited": 0, "rsp0": 0, "prinNotRef": False, "dsoFail": False,
+                        "auxvComplete": False, "outcome": r["end"]["worker"] if r["end"] else "?", "error": "", "wellFormed": False, "paths": [], "present": []})
+        for d in r["dumps"]:
+            evs.append(dumps.c11_event(r, d))
+            sevs.append(dumps.c01_event(r, d))
+    out = os.path.join(ck.work, "c11.ndjson")
+    core.export_lines(evs, out)
+
+    def describe(hist, tag):
+        e = hist[-1]
+        sig = {"tag": tag}
+        if tag == "C11-best-effort-failure-made-the-dump-fail":
+            sig["scenario"] = e["origin"]
+        return (sig, f"scenario {e['origin']} (fail points {e['fp']}, {e['nameFail']} unreadable names, {e['exited']} vanished, {e['rsp0']} sandbox threads): {tag}; outcome {e['outcome']} {e['error'][:160]}; reported {e['paths']}")
+    v = util.judge_batch(ck, "Trace_SoftErrors", out, "dumps under all 32 fail-point subsets, per-thread name failures, vanished and sandbox threads, unreferenced principal mapping, non-UTF-8 thread name, linker data without DT_DEBUG", "SoftErrors", describe, traces=len(evs))
+    sout = os.path.join(ck.work, "c11_structure.ndjson")
+    core.export_lines(sevs, sout)
+    util.judge_batch(ck, "Trace_Structure", sout, "structure of the same dumps (all other streams intact)", "DumpSeq",
+                     lambda hist, tag: ({"tag": tag}, f"dump {hist[-1]['origin']} with soft failures is not structurally sound: {hist[-1].get('errs')}"), traces=len(sevs))
+    ck.cov["distinct_nontrivial"] = v.get("withFailures", 0)
+    ck.cov["rule"] = "one case = one dump under one fault plan; non-trivial = the plan contains at least one failure; plans are distinct by construction"
+    ck.cov["exhaustive"] = True
+    ck.cov["decided_by"] = {"result ok, streams present, bag and order of reported failures": "spec", "flattening of the JSON tree to paths": "harness projection"}
+    ck.sample({"c11_event": evs[7]})
+    ck.assumptions += ["failures of the /etc/*-release and /proc/cpuinfo copies (needing a private mount namespace) are exercised only on the model", "stop_timeout raised to 5 s so that load cannot produce a spontaneous Timeout soft error"]
+    return runs
+
+
+# ------------------------------------------------------------------------------------------ C19
+def _reuse_scenarios(quick, seed):
+    import random
+    rnd = random.Random(seed)
+    scns = []
+    base_regions = [{"name": "app0", "len": 3000, "lead": 9, "above": "hole"}, {"name": "app1", "len": 64, "lead": 0}, {"name": "code", "len": 8192, "exec": True}]
+    def tgt(n, **kw):
+        t = dumps.base_target(n, regions=base_regions, shared=True)
+        t["threads"].append({"mode": "heartbeat"})
+        t["threads"][0]["words"] = [[16, {"region": "code", "off": 200}]]
+        t.update(kw)
+        return t
+    # same options, several dumps
+    for n, k in [(1, 2), (3, 3), (2, 5)]:
+        scns.append({"id": f"reuse/same{n}x{k}", "target": tgt(n), "writer": {"blamed": "main", "app_memory": [{"addr": {"region": "app0"}, "len": 3000}]}, "history": [{"op": "dump"}] * k})
+    # crash context on the first dump only; blamed thread exits between dumps
+    hb = 2
+    # the blamed thread of the second dump is a sandbox thread (alive, but never listed): no context may be carried over
+    t2 = tgt(2)
+    t2["threads"].append({"mode": "rsp0"})
+    scns.append({"id": "reuse/blamed-unlisted", "target": t2, "writer": {"blamed": {"slot": 0}}, "history": [{"op": "dump"}, {"op": "set", "writer": {"blamed": {"slot": 3}}}, {"op": "dump"}]})
+    scns.append({"id": "reuse/ctx-then-none", "target": tgt(2), "writer": {"blamed": {"slot": 0}, "crash_context": {"sp": {"thread_sp": 0}, "ip": {"region": "code", "off": 500}}},
+                 "history": [{"op": "dump"}, {"op": "set", "writer": {"crash_context": None}}, {"op": "dump"}]})
+    # app memory changed between dumps
+    scns.append({"id": "reuse/app-moves", "target": tgt(1), "writer": {"blamed": "main", "app_memory": [{"addr": {"region": "app0"}, "len": 3000}]},
+                 "history": [{"op": "dump"}, {"op": "set", "writer": {"app_memory": [{"addr": {"region": "app1"}, "len": 64}]}}, {"op": "dump"}, {"op": "set", "writer": {"app_memory": []}}, {"op": "dump"}]})
+    # principal mapping given, then withdrawn
+    scns.append({"id": "reuse/principal-withdrawn", "target": tgt(2), "writer": {"blamed": "main", "skip": True, "principal": {"region": "code", "off": 64}},
+                 "history": [{"op": "dump"}, {"op": "set", "writer": {"principal": "unset"}}, {"op": "dump"}]})
+    for k in range(0 if quick else 40):
+        n = rnd.randrange(1, 6)
+        hist = []
+        for j in range(rnd.randrange(2, 6)):
+            if j and rnd.random() < 0.5:
+                hist.append({"op": "set", "writer": {"app_memory": [{"addr": {"region": rnd.choice(["app0", "app1"])}, "len": 64}] if rnd.random() < 0.5 else []}})
+            hist.append({"op": "dump"})
+        scns.append({"id": f"reuse/rand{k}", "target": tgt(n), "writer": {"blamed": rnd.choice(["main", {"slot": 0}]), "sanitize": rnd.random() < 0.5}, "history": hist})
+    return scns
+
+
+def c19(ck):
+    quick = ck.tier == "quick"
+    util.mc_design(ck, "DumpSeq", "MC_DumpSeq_reuse", "two dumps on one writer, each with its own thread list / app regions; invariants C01, C11, C19 (NoCarryOver)", workers=8, coverage=True)
+    scns = _reuse_scenarios(quick, ck.seed)
+    runs = dumps.run_scenarios(ck, scns, "c19")
+    evs, sevs = [], []
+    for r in runs:
+        cur = dict(r["scn"].get("writer", {}))
+        di = 0
+        for step in r["scn"].get("history", [{"op": "dump"}]):
+            if step["op"] == "set":
+                cur.update(step["writer"])
+            elif step["op"] == "dump":
+                if di < len(r["dumps"]):
+                    d = r["dumps"][di]
+                    evs.append(dumps.c19_event(r, d, cur))
+                    sevs.append(dumps.c01_event(dict(r, scn=dict(r["scn"], writer=cur)), d))
+                else:
+                    evs.append(dumps.c19_event(r, {"outcome": r["end"]["worker"] if r["end"] else "?", "dump_no": di + 1}, cur))
+                di += 1
+    out = os.path.join(ck.work, "c19.ndjson")
+    core.export_lines(evs, out)
+
+    def describe(hist, tag):
+        e = hist[-1]
+        return ({"tag": tag}, f"dump #{e['dumpNo']} of history {e['origin']} differs from a fresh writer's ({tag}): memory list {e['memCount']} regions (expected {e['expMem']}, bytes ok: {e['memOk']}), "
+                              f"exception context rva {e['excCtxRva']} size {e['excCtxSize']} vs blamed thread's {e['blamedCtxRva']} (listed: {e['blamedListed']}), stacks {e['nStacks']}")
+    v = util.judge_batch(ck, "Trace_Reuse", out, "histories of 2..5 dumps on one MinidumpWriter (options and target changed between dumps)", "DumpSeq", describe, traces=len(runs))
+    sout = os.path.join(ck.work, "c19_structure.ndjson")
+    core.export_lines(sevs, sout)
+    util.judge_batch(ck, "Trace_Structure", sout, "structure of every image of the histories", "DumpSeq",
+                     lambda hist, tag: ({"tag": tag + "/reused-writer" if hist[-1].get("dump_no", 1) > 1 else tag}, f"image #{hist[-1].get('dump_no')} of {hist[-1]['origin']} is not structurally sound: {hist[-1].get('errs')}"), traces=len(sevs))
+    if v.get("later", 0) == 0:
+        raise core.ToolError("vacuous: no second dump was taken")
+    ck.cov["distinct_nontrivial"] = v.get("later", 0)
+    ck.cov["rule"] = "one case = the k-th dump (k >= 2) of a history on one writer; histories are distinct by construction / seeded"
+    ck.cov["decided_by"] = {"region counts, context identity, stack filtering": "spec", "region bytes vs target memory": "comparator"}
+    ck.sample({"c19_event": evs[1]})
+    return runs
